@@ -34,10 +34,12 @@ structure EInv (life : Nat) (g : G) : Prop where
     ((g.threads t).pc = .atSet ∨ (g.threads t).stored = true ∨ (g.threads t).out = .errSet)
   stored : ∀ t, (g.threads t).stored = true →
     (g.threads t).ran = true ∧ (g.threads t).req.fails = false ∧ ∃ k, (g.threads t).req.key = some k
+  /-- a recorded response was recorded after the handler completed, and not in the future -/
+  setAt : ∀ t, (g.threads t).stored = true → (g.threads t).doneAt ≤ (g.threads t).setAt ∧ (g.threads t).setAt ≤ g.now
   record : ∀ k r exp, g.store k = some (r, exp) →
-    (g.threads r).req.key = some k ∧ (g.threads r).stored = true ∧ (g.threads r).doneAt + life ≤ exp
+    (g.threads r).req.key = some k ∧ (g.threads r).stored = true ∧ (g.threads r).setAt + life ≤ exp
   kept : ∀ t k, (g.threads t).stored = true → (g.threads t).req.key = some k →
-    ∃ r exp, g.store k = some (r, exp) ∧ (g.threads t).doneAt + life ≤ exp
+    ∃ r exp, g.store k = some (r, exp) ∧ (g.threads t).setAt + life ≤ exp
   exec : ∀ t k, execRegion (g.threads t).pc = true → (g.threads t).req.key = some k →
     ∀ r exp, g.store k = some (r, exp) → exp ≤ g.now
   replay : ∀ t r, (g.threads t).out = .replay r →
@@ -45,7 +47,7 @@ structure EInv (life : Nat) (g : G) : Prop where
 
 theorem einv_init (life : Nat) (reqs : Tid → Req) (t0 : Nat) (keep : Option (List String)) :
     EInv life (init reqs t0 keep) := by
-  refine ⟨?_, ?_, ?_, ?_, ?_, ?_, ?_, ?_, ?_⟩ <;> intros <;> simp_all [init, noRunOut]
+  refine ⟨?_, ?_, ?_, ?_, ?_, ?_, ?_, ?_, ?_, ?_⟩ <;> intros <;> simp_all [init, noRunOut]
 
 theorem lookup_some {g : G} {k : Key} {r : Tid} (h : lookup g k = some r) : ∃ exp, g.store k = some (r, exp) := by
   unfold lookup at h
@@ -71,6 +73,7 @@ theorem einv_local {life : Nat} {g g' : G} {t : Tid} (hi : EInv life g)
     (hoth : ∀ t', t' ≠ t → g'.threads t' = g.threads t')
     (hreq : (g'.threads t).req = (g.threads t).req) (hsto : (g'.threads t).stored = (g.threads t).stored)
     (hdone : (g'.threads t).doneAt = (g.threads t).doneAt)
+    (hset : (g'.threads t).setAt = (g.threads t).setAt)
     (c1 : early (g'.threads t).pc = true →
       (g'.threads t).ran = false ∧ (g'.threads t).out = .pending ∧ (g'.threads t).stored = false ∧
       ((g'.threads t).pc = .atHandlerB → (g'.threads t).req.key = none))
@@ -100,7 +103,11 @@ theorem einv_local {life : Nat} {g g' : G} {t : Tid} (hi : EInv life g)
     intro t'; by_cases h : t' = t
     · subst h; exact hdone
     · rw [hoth t' h]
-  refine ⟨?_, ?_, ?_, ?_, ?_, ?_, ?_, ?_, ?_⟩
+  have hSa : ∀ t', (g'.threads t').setAt = (g.threads t').setAt := by
+    intro t'; by_cases h : t' = t
+    · subst h; exact hset
+    · rw [hoth t' h]
+  refine ⟨?_, ?_, ?_, ?_, ?_, ?_, ?_, ?_, ?_, ?_⟩
   · intro t' h; by_cases ht : t' = t
     · subst ht; exact c1 h
     · rw [hoth t' ht] at h ⊢; exact hi.early t' h
@@ -116,8 +123,9 @@ theorem einv_local {life : Nat} {g g' : G} {t : Tid} (hi : EInv life g)
   · intro t' h; by_cases ht : t' = t
     · subst ht; exact c5 h
     · rw [hoth t' ht] at h ⊢; exact hi.stored t' h
-  · intro k r exp h; rw [hst] at h; rw [hRq, hSt, hDn]; exact hi.record k r exp h
-  · intro t' k h1 h2; rw [hSt] at h1; rw [hRq] at h2; rw [hst, hDn]; exact hi.kept t' k h1 h2
+  · intro t' h; rw [hSt] at h; rw [hDn, hSa, hnow]; exact hi.setAt t' h
+  · intro k r exp h; rw [hst] at h; rw [hRq, hSt, hSa]; exact hi.record k r exp h
+  · intro t' k h1 h2; rw [hSt] at h1; rw [hRq] at h2; rw [hst, hSa]; exact hi.kept t' k h1 h2
   · intro t' k h1 h2 r exp h3; rw [hst] at h3; rw [hnow]; by_cases ht : t' = t
     · subst ht; exact c6 k h1 h2 r exp h3
     · rw [hoth t' ht] at h1 h2; exact hi.exec t' k h1 h2 r exp h3
@@ -130,12 +138,13 @@ theorem einv_late {life : Nat} {g g' : G} {t : Tid} (hi : EInv life g)
     (hst : g'.store = g.store) (hnow : g'.now = g.now)
     (hoth : ∀ t', t' ≠ t → g'.threads t' = g.threads t')
     (hreq : (g'.threads t).req = (g.threads t).req) (hsto : (g'.threads t).stored = (g.threads t).stored)
-    (hdone : (g'.threads t).doneAt = (g.threads t).doneAt) (hran : (g'.threads t).ran = (g.threads t).ran)
+    (hdone : (g'.threads t).doneAt = (g.threads t).doneAt) (hset : (g'.threads t).setAt = (g.threads t).setAt)
+    (hran : (g'.threads t).ran = (g.threads t).ran)
     (hout : (g'.threads t).out = (g.threads t).out)
     (hpc0 : (g.threads t).pc ≠ .atSet)
     (hpc1 : early (g'.threads t).pc = false ∧ (g'.threads t).pc ≠ .atSet ∧ execRegion (g'.threads t).pc = false) :
     EInv life g' := by
-  refine einv_local (t := t) hi hst hnow hoth hreq hsto hdone ?_ ?_ ?_ ?_ ?_ ?_ ?_
+  refine einv_local (t := t) hi hst hnow hoth hreq hsto hdone hset ?_ ?_ ?_ ?_ ?_ ?_ ?_
   · intro h; rw [hpc1.1] at h; cases h
   · intro h; rw [hout] at h; rw [hran]; exact hi.noRun t h
   · intro h; exact absurd h hpc1.2.1
@@ -153,13 +162,16 @@ theorem einv_late {life : Nat} {g g' : G} {t : Tid} (hi : EInv life g)
   · intro r h; rw [hout] at h; exact hi.replay t r h
 
 theorem einv_tick {life : Nat} {g : G} (d : Nat) (hi : EInv life g) : EInv life { g with now := g.now + d } := by
-  refine ⟨hi.early, hi.noRun, ?_, ?_, hi.stored, hi.record, hi.kept, ?_, hi.replay⟩
+  refine ⟨hi.early, hi.noRun, ?_, ?_, hi.stored, ?_, hi.record, hi.kept, ?_, hi.replay⟩
   · intro t h
     obtain ⟨a, b, c, e, f⟩ := hi.atSet t h
     exact ⟨a, b, c, e, Nat.le_trans f (Nat.le_add_right _ _)⟩
   · intro t k h1 h2 h3
     obtain ⟨a, b⟩ := hi.succ t k h1 h2 h3
     exact ⟨Nat.le_trans a (Nat.le_add_right _ _), b⟩
+  · intro t h
+    obtain ⟨a, b⟩ := hi.setAt t h
+    exact ⟨a, Nat.le_trans b (Nat.le_add_right _ _)⟩
   · intro t k h1 h2 r exp h3
     exact Nat.le_trans (hi.exec t k h1 h2 r exp h3) (Nat.le_add_right _ _)
 
@@ -183,63 +195,63 @@ theorem einv_step (life : Nat) {g g' : G} {t : Tid} (hl : LInv g) (hi : EInv lif
   cases hs with
   | arriveInvalid hpc hk hiv =>
     have he := hi.early t (by simp [hpc, early])
-    refine einv_local (t := t) hi rfl rfl (fun t' h => by simp [h]) (by simp) (by simp) (by simp)
+    refine einv_local (t := t) hi rfl rfl (fun t' h => by simp [h]) (by simp) (by simp) (by simp) (by simp)
       (by simp [early]) (by simp [he.1]) (by simp) ?_ (by simp [he.2.2.1]) (by simp [execRegion]) (by simp)
     intro k h1; simp [he.1] at h1
   | arriveBypass hpc hk hiv =>
     have he := hi.early t (by simp [hpc, early])
-    refine einv_local (t := t) hi rfl rfl (fun t' h => by simp [h]) (by simp) (by simp) (by simp)
+    refine einv_local (t := t) hi rfl rfl (fun t' h => by simp [h]) (by simp) (by simp) (by simp) (by simp)
       (by simp [he, hk]) (by simp [he.1]) (by simp) ?_ (by simp [he.2.2.1]) (by simp [execRegion]) (by simp [he.2.1])
     intro k h1; simp [he.1] at h1
   | arrive hpc k hk =>
     have he := hi.early t (by simp [hpc, early])
-    refine einv_local (t := t) hi rfl rfl (fun t' h => by simp [h]) (by simp) (by simp) (by simp)
+    refine einv_local (t := t) hi rfl rfl (fun t' h => by simp [h]) (by simp) (by simp) (by simp) (by simp)
       (by simp [he]) (by simp [he.1]) (by simp) ?_ (by simp [he.2.2.1]) (by simp [execRegion]) (by simp [he.2.1])
     intro k h1; simp [he.1] at h1
   | get1Hit hpc k hk r hlk =>
     have he := hi.early t (by simp [hpc, early])
     obtain ⟨exp, hst⟩ := lookup_some hlk
     obtain ⟨r1, r2, _⟩ := hi.record k r exp hst
-    refine einv_local (t := t) hi rfl rfl (fun t' h => by simp [h]) (by simp) (by simp) (by simp)
+    refine einv_local (t := t) hi rfl rfl (fun t' h => by simp [h]) (by simp) (by simp) (by simp) (by simp)
       (by simp [early]) (by simp [he.1]) (by simp) ?_ (by simp [he.2.2.1]) (by simp [execRegion]) ?_
     · intro k h1; simp [he.1] at h1
     · intro r' hr; simp at hr; subst hr; exact ⟨by rw [r1, hk], by simp [hk], r2⟩
   | get1Miss hpc k hk hlk =>
     have he := hi.early t (by simp [hpc, early])
-    refine einv_local (t := t) hi rfl rfl (fun t' h => by simp [h]) (by simp) (by simp) (by simp)
+    refine einv_local (t := t) hi rfl rfl (fun t' h => by simp [h]) (by simp) (by simp) (by simp) (by simp)
       (by simp [he]) (by simp [he.1]) (by simp) ?_ (by simp [he.2.2.1]) (by simp [execRegion]) (by simp [he.2.1])
     intro k h1; simp [he.1] at h1
   | lockCall hpc =>
     have he := hi.early t (by simp [hpc, early])
-    refine einv_local (t := t) hi rfl rfl (fun t' h => by simp [h]) (by simp) (by simp) (by simp)
+    refine einv_local (t := t) hi rfl rfl (fun t' h => by simp [h]) (by simp) (by simp) (by simp) (by simp)
       (by simp [he]) (by simp [he.1]) (by simp) ?_ (by simp [he.2.2.1]) (by simp [execRegion]) (by simp [he.2.1])
     intro k h1; simp [he.1] at h1
   | incOld hpc k hk i hki =>
     have he := hi.early t (by simp [hpc, early])
-    refine einv_local (t := t) hi rfl rfl (fun t' h => by simp [h]) (by simp) (by simp) (by simp)
+    refine einv_local (t := t) hi rfl rfl (fun t' h => by simp [h]) (by simp) (by simp) (by simp) (by simp)
       (by simp [he]) (by simp [he.1]) (by simp) ?_ (by simp [he.2.2.1]) (by simp [execRegion]) (by simp [he.2.1])
     intro k h1; simp [he.1] at h1
   | incNew hpc k hk hki =>
     have he := hi.early t (by simp [hpc, early])
-    refine einv_local (t := t) hi rfl rfl (fun t' h => by simp [h]) (by simp) (by simp) (by simp)
+    refine einv_local (t := t) hi rfl rfl (fun t' h => by simp [h]) (by simp) (by simp) (by simp) (by simp)
       (by simp [he]) (by simp [he.1]) (by simp) ?_ (by simp [he.2.2.1]) (by simp [execRegion]) (by simp [he.2.1])
     intro k h1; simp [he.1] at h1
   | acquire hpc hh =>
     have he := hi.early t (by simp [hpc, early])
-    refine einv_local (t := t) hi rfl rfl (fun t' h => by simp [h]) (by simp) (by simp) (by simp)
+    refine einv_local (t := t) hi rfl rfl (fun t' h => by simp [h]) (by simp) (by simp) (by simp) (by simp)
       (by simp [he]) (by simp [he.1]) (by simp) ?_ (by simp [he.2.2.1]) (by simp [execRegion]) (by simp [he.2.1])
     intro k h1; simp [he.1] at h1
   | get2Hit hpc k hk r hlk =>
     have he := hi.early t (by simp [hpc, early])
     obtain ⟨exp, hst⟩ := lookup_some hlk
     obtain ⟨r1, r2, _⟩ := hi.record k r exp hst
-    refine einv_local (t := t) hi rfl rfl (fun t' h => by simp [h]) (by simp) (by simp) (by simp)
+    refine einv_local (t := t) hi rfl rfl (fun t' h => by simp [h]) (by simp) (by simp) (by simp) (by simp)
       (by simp [early]) (by simp [he.1]) (by simp) ?_ (by simp [he.2.2.1]) (by simp [execRegion]) ?_
     · intro k h1; simp [he.1] at h1
     · intro r' hr; simp at hr; subst hr; exact ⟨by rw [r1, hk], by simp [hk], r2⟩
   | get2Miss hpc k hk hlk =>
     have he := hi.early t (by simp [hpc, early])
-    refine einv_local (t := t) hi rfl rfl (fun t' h => by simp [h]) (by simp) (by simp) (by simp)
+    refine einv_local (t := t) hi rfl rfl (fun t' h => by simp [h]) (by simp) (by simp) (by simp) (by simp)
       (by simp [he]) (by simp [he.1]) (by simp) ?_ (by simp [he.2.2.1]) ?_ (by simp [he.2.1])
     · intro k h1; simp [he.1] at h1
     · intro k' _ hk' r exp hst
@@ -248,13 +260,13 @@ theorem einv_step (life : Nat) {g g' : G} {t : Tid} (hl : LInv g) (hi : EInv lif
       exact lookup_none hlk r exp hst
   | handlerFail hpc hf =>
     have he := hi.early t (by simp [hpc, early])
-    refine einv_local (t := t) hi rfl rfl (fun t' h => by simp [h]) (by simp) (by simp) (by simp)
+    refine einv_local (t := t) hi rfl rfl (fun t' h => by simp [h]) (by simp) (by simp) (by simp) (by simp)
       (by simp [early]) (by simp [noRunOut]) (by simp) ?_ (by simp [he.2.2.1]) (by simp [execRegion]) (by simp)
     intro k _ h2; simp [hf] at h2
   | handlerOk hpc hf =>
     have he := hi.early t (by simp [hpc, early])
     have hex := hi.exec t
-    refine ⟨?_, ?_, ?_, ?_, ?_, ?_, ?_, ?_, ?_⟩
+    refine ⟨?_, ?_, ?_, ?_, ?_, ?_, ?_, ?_, ?_, ?_⟩
     · intro t' h; by_cases ht : t' = t
       · subst ht; simp [early] at h
       · simp only [setThread_threads_ne _ _ ht] at h ⊢; exact hi.early t' h
@@ -270,6 +282,9 @@ theorem einv_step (life : Nat) {g g' : G} {t : Tid} (hl : LInv g) (hi : EInv lif
     · intro t' h; by_cases ht : t' = t
       · subst ht; simp [he.2.2.1] at h
       · simp only [setThread_threads_ne _ _ ht] at h ⊢; exact hi.stored t' h
+    · intro t' h; by_cases ht : t' = t
+      · subst ht; simp [he.2.2.1] at h
+      · simp only [setThread_threads_ne _ _ ht, setThread_now] at h ⊢; exact hi.setAt t' h
     · intro k r exp h
       simp only [setThread_store] at h
       obtain ⟨a, b, c⟩ := hi.record k r exp h
@@ -302,7 +317,7 @@ theorem einv_step (life : Nat) {g g' : G} {t : Tid} (hl : LInv g) (hi : EInv lif
         exact ⟨a, b, hrs r c⟩
   | set hpc k hk =>
     obtain ⟨s1, s2, s3, s4, s5⟩ := hi.atSet t hpc
-    refine ⟨?_, ?_, ?_, ?_, ?_, ?_, ?_, ?_, ?_⟩
+    refine ⟨?_, ?_, ?_, ?_, ?_, ?_, ?_, ?_, ?_, ?_⟩
     · intro t' h; by_cases ht : t' = t
       · subst ht; simp [early] at h
       · simp only [setThread_threads_ne _ _ ht] at h ⊢; exact hi.early t' h
@@ -318,13 +333,16 @@ theorem einv_step (life : Nat) {g g' : G} {t : Tid} (hl : LInv g) (hi : EInv lif
     · intro t' h; by_cases ht : t' = t
       · subst ht; simp [s1, s2, hk]
       · simp only [setThread_threads_ne _ _ ht] at h ⊢; exact hi.stored t' h
+    · intro t' h; by_cases ht : t' = t
+      · subst ht; simp [s5]
+      · simp only [setThread_threads_ne _ _ ht, setThread_now] at h ⊢; exact hi.setAt t' h
     · intro k' r exp h
       simp only [setThread_store] at h
       by_cases hkk : k' = k
       · subst hkk
         simp at h
         obtain ⟨rfl, rfl⟩ := h
-        simp [hk]; omega
+        simp [hk]
       · simp [hkk] at h
         obtain ⟨a, b, c⟩ := hi.record k' r exp h
         by_cases hr : r = t
@@ -336,13 +354,12 @@ theorem einv_step (life : Nat) {g g' : G} {t : Tid} (hl : LInv g) (hi : EInv lif
       · subst ht
         simp only [setThread_threads_same] at h2 ⊢
         rw [hk] at h2; cases h2
-        exact ⟨t', g.now + life, by simp, by omega⟩
+        exact ⟨t', g.now + life, by simp, by simp⟩
       · simp only [setThread_threads_ne _ _ ht] at h1 h2 ⊢
         obtain ⟨r, exp, a, b⟩ := hi.kept t' k' h1 h2
         by_cases hkk : k' = k
         · subst hkk
-          obtain ⟨c1, c2, _⟩ := hi.stored t' h1
-          have := (hi.succ t' k' c1 c2 h2).1
+          have := (hi.setAt t' h1).2
           exact ⟨t, g.now + life, by simp, by omega⟩
         · exact ⟨r, exp, by simp [hkk, a], b⟩
     · intro t' k' h1 h2 r exp h3
@@ -359,12 +376,12 @@ theorem einv_step (life : Nat) {g g' : G} {t : Tid} (hl : LInv g) (hi : EInv lif
     · intro t' r h
       have hrs : ∀ r, (g.threads r).stored = true →
           (({ g with store := fun k' => if k' = k then some (t, g.now + life) else g.store k', vals := fun k' => if k' = k then some (recorded g.keep (g.threads t).req.resp) else g.vals k' }.setThread t
-            { g.threads t with pc := .atUnlock, out := .own, stored := true }).threads r).stored = true := by
+            { g.threads t with pc := .atUnlock, out := .own, stored := true, setAt := g.now }).threads r).stored = true := by
         intro r hr; by_cases hrt : r = t
         · subst hrt; simp
         · simp [setThread_threads_ne _ _ hrt, hr]
       have hrk : ∀ r, (({ g with store := fun k' => if k' = k then some (t, g.now + life) else g.store k', vals := fun k' => if k' = k then some (recorded g.keep (g.threads t).req.resp) else g.vals k' }.setThread t
-            { g.threads t with pc := .atUnlock, out := .own, stored := true }).threads r).req = (g.threads r).req := by
+            { g.threads t with pc := .atUnlock, out := .own, stored := true, setAt := g.now }).threads r).req = (g.threads r).req := by
         intro r; by_cases hrt : r = t
         · subst hrt; simp
         · simp [setThread_threads_ne _ _ hrt]
@@ -375,26 +392,26 @@ theorem einv_step (life : Nat) {g g' : G} {t : Tid} (hl : LInv g) (hi : EInv lif
         rw [hrk r, hrk t']
         exact ⟨a, b, hrs r c⟩
   | unlockCall hpc =>
-    exact einv_late (t := t) hi rfl rfl (fun t' h => by simp [h]) (by simp) (by simp) (by simp) (by simp) (by simp)
+    exact einv_late (t := t) hi rfl rfl (fun t' h => by simp [h]) (by simp) (by simp) (by simp) (by simp) (by simp) (by simp)
       (by simp [hpc]) (by simp [early, execRegion])
   | unlockFound hpc k hk i hki =>
-    exact einv_late (t := t) hi rfl rfl (fun t' h => by simp [h]) (by simp) (by simp) (by simp) (by simp) (by simp)
+    exact einv_late (t := t) hi rfl rfl (fun t' h => by simp [h]) (by simp) (by simp) (by simp) (by simp) (by simp) (by simp)
       (by simp [hpc]) (by simp [early, execRegion])
   | unlockUnknown hpc k hk hki =>
-    exact einv_late (t := t) hi rfl rfl (fun t' h => by simp [h]) (by simp) (by simp) (by simp) (by simp) (by simp)
+    exact einv_late (t := t) hi rfl rfl (fun t' h => by simp [h]) (by simp) (by simp) (by simp) (by simp) (by simp) (by simp)
       (by simp [hpc]) (by simp [early, execRegion])
   | release hpc =>
-    exact einv_late (t := t) hi rfl rfl (fun t' h => by simp [h]) (by simp) (by simp) (by simp) (by simp) (by simp)
+    exact einv_late (t := t) hi rfl rfl (fun t' h => by simp [h]) (by simp) (by simp) (by simp) (by simp) (by simp) (by simp)
       (by simp [hpc]) (by simp [early, execRegion])
   | decDelete hpc k hk hz =>
-    exact einv_late (t := t) hi rfl rfl (fun t' h => by simp [h]) (by simp) (by simp) (by simp) (by simp) (by simp)
+    exact einv_late (t := t) hi rfl rfl (fun t' h => by simp [h]) (by simp) (by simp) (by simp) (by simp) (by simp) (by simp)
       (by simp [hpc]) (by simp [early, execRegion])
   | decKeep hpc k hk hz =>
-    exact einv_late (t := t) hi rfl rfl (fun t' h => by simp [h]) (by simp) (by simp) (by simp) (by simp) (by simp)
+    exact einv_late (t := t) hi rfl rfl (fun t' h => by simp [h]) (by simp) (by simp) (by simp) (by simp) (by simp) (by simp)
       (by simp [hpc]) (by simp [early, execRegion])
   | handlerB hpc =>
     have he := hi.early t (by simp [hpc, early])
-    refine einv_local (t := t) hi rfl rfl (fun t' h => by simp [h]) (by simp) (by simp) (by simp)
+    refine einv_local (t := t) hi rfl rfl (fun t' h => by simp [h]) (by simp) (by simp) (by simp) (by simp)
       (by simp [early]) ?_ (by simp) ?_ (by simp [he.2.2.1]) (by simp [execRegion]) ?_
     · by_cases hf : (g.threads t).req.fails = true <;> simp [hf, noRunOut]
     · intro k _ _ h3
@@ -403,25 +420,25 @@ theorem einv_step (life : Nat) {g g' : G} {t : Tid} (hl : LInv g) (hi : EInv lif
     · intro r; by_cases hf : (g.threads t).req.fails = true <;> simp [hf]
   | faultGet1 hpc =>
     have he := hi.early t (by simp [hpc, early])
-    refine einv_local (t := t) hi rfl rfl (fun t' h => by simp [h]) (by simp) (by simp) (by simp)
+    refine einv_local (t := t) hi rfl rfl (fun t' h => by simp [h]) (by simp) (by simp) (by simp) (by simp)
       (by simp [early]) (by simp [he.1]) (by simp) ?_ (by simp [he.2.2.1]) (by simp [execRegion]) (by simp)
     intro k h1; simp [he.1] at h1
   | faultLock hpc =>
     have he := hi.early t (by simp [hpc, early])
-    refine einv_local (t := t) hi rfl rfl (fun t' h => by simp [h]) (by simp) (by simp) (by simp)
+    refine einv_local (t := t) hi rfl rfl (fun t' h => by simp [h]) (by simp) (by simp) (by simp) (by simp)
       (by simp [early]) (by simp [he.1]) (by simp) ?_ (by simp [he.2.2.1]) (by simp [execRegion]) (by simp)
     intro k h1; simp [he.1] at h1
   | faultGet2 hpc =>
     have he := hi.early t (by simp [hpc, early])
-    refine einv_local (t := t) hi rfl rfl (fun t' h => by simp [h]) (by simp) (by simp) (by simp)
+    refine einv_local (t := t) hi rfl rfl (fun t' h => by simp [h]) (by simp) (by simp) (by simp) (by simp)
       (by simp [early]) (by simp [he.1]) (by simp) ?_ (by simp [he.2.2.1]) (by simp [execRegion]) (by simp)
     intro k h1; simp [he.1] at h1
   | faultUnlock hpc =>
-    exact einv_late (t := t) hi rfl rfl (fun t' h => by simp [h]) (by simp) (by simp) (by simp) (by simp) (by simp)
+    exact einv_late (t := t) hi rfl rfl (fun t' h => by simp [h]) (by simp) (by simp) (by simp) (by simp) (by simp) (by simp)
       (by simp [hpc]) (by simp [early, execRegion])
   | faultSet hpc =>
     obtain ⟨s1, s2, s3, s4, s5⟩ := hi.atSet t hpc
-    refine einv_local (t := t) hi rfl rfl (fun t' h => by simp [h]) (by simp) (by simp) (by simp)
+    refine einv_local (t := t) hi rfl rfl (fun t' h => by simp [h]) (by simp) (by simp) (by simp) (by simp)
       (by simp [early]) (by simp [noRunOut]) (by simp) ?_ (by simp [s4]) (by simp [execRegion]) (by simp)
     intro k _ _ _; simp [s5]
 
